@@ -48,9 +48,9 @@ Lemma arith_no_panic : forall a b,
   vadd a b <> Panic /\ vsub a b <> Panic /\ vmul a b <> Panic /\ vdiv a b <> Panic.
 Proof.
   intros a b. repeat split.
-  - destruct a, b; cbn [vadd]; try apply binary_op_np; try apply mk_dur_np; try apply mk_date_np; discriminate.
-  - destruct a, b; cbn [vsub]; try apply binary_op_np; try apply mk_dur_np; try apply mk_date_np; discriminate.
-  - destruct a, b; cbn [vmul]; try apply binary_op_np; try discriminate;
+  - unfold vadd. destruct (int_text a), (int_text b); cbn [vadd_typed]; try apply binary_op_np; try apply mk_dur_np; try apply mk_date_np; discriminate.
+  - unfold vsub. destruct (int_text a), (int_text b); cbn [vsub_typed]; try apply binary_op_np; try apply mk_dur_np; try apply mk_date_np; discriminate.
+  - unfold vmul. destruct (int_text a), (int_text b); cbn [vmul_typed]; try apply binary_op_np; try discriminate;
       match goal with |- context[in_i32 ?x] => destruct (in_i32 x) end;
       try apply mk_dur_np; discriminate.
   - destruct a, b; cbn [vdiv]; try apply binary_op_np.
@@ -386,7 +386,7 @@ Proof.
   destruct (existsb _ _); [cbn [out]; discriminate|].
   cbn [out].
   assert (Hna : not_adapter head) by (destruct head; [exact I | exact I | exact Hh]).
-  destruct (process_records_ok (rev (p_sent (run_preagg pre (map (fun l => mkRec [] l) (filter f lines))))) head Hna)
+  destruct (process_records_ok (rev (p_sent (run_preagg pre (map (fun l => mkRec [] l) (filter (fun l => f (chomp l)) lines))))) head Hna)
     as [a' [Hf _]].
   rewrite Hf. cbn [bind].
   apply bind_np; [apply agg_emit_np|]. intros t.
